@@ -201,8 +201,9 @@ def parseValues (a : Acl) (vals : List Bytes) : Step Acl :=
     | .reject .badMask => .reject .badMask
     | .unmodelled => .unmodelled
   | .dstdomain =>
-    -- quoted values would be file names (`strtokFile`): outside the scope
-    if vals.any (fun v => v.head? = some 34 ∨ v.head? = some 39) then .unmodelled
+    -- quoted values would be file names (`strtokFile`): outside the scope; so are values that begin with two dots
+    -- (C41's finding; squid commit 7fcae3a makes ACLDomainData::parse refuse them)
+    if vals.any (fun v => v.head? = some 34 ∨ v.head? = some 39 ∨ v.take 2 = [46, 46]) then .unmodelled
     else .ok { a with domains := a.domains ++ vals.map Domain.fold }
   | .port =>
     match IntRange.parse vals with
